@@ -309,3 +309,93 @@ func voteCounterDifferential(r *ev.Run) {
 		r.Set("C2_votecounter_depth", int64(depth))
 	}
 }
+
+// ---- C3: future-height buffer -------------------------------------------------------------------
+// Messages for a height above the current one are buffered and become that height's round data at
+// StartNewHeight. For every current height, every buffered height (current .. current+2), every round and
+// every ordered pair of proposals from any two of the 4 validators (round-robin proposer (h+r)%4, so the
+// proposer rotates ACROSS heights): a proposal is accepted iff its sender is proposer(ITS height, round) and
+// the slot is free; after advancing to that height the kept proposal is the legitimate one; buffered votes
+// count exactly.
+func futureHeightBuffer(r *ev.Run) {
+	const n = 4
+	powers := []uint{1, 1, 1, 1}
+	vals := &powVals{powers: powers, total: n}
+	for i := 0; i < n; i++ {
+		vals.addrs = append(vals.addrs, felt.FromUint64[starknet.Address](uint64(10+i)))
+	}
+	valA, valB := felt.FromUint64[starknet.Value](500), felt.FromUint64[starknet.Value](501)
+	vv := []*starknet.Value{&valA, &valB}
+	var cases, accepted, refusedForeign int64
+	for cur := 0; cur <= 3; cur++ {
+		for d := 0; d <= 2; d++ {
+			fh := cur + d
+			for round := 0; round <= 3; round++ {
+				prop := (fh + round) % n
+				for s1 := 0; s1 < n; s1++ {
+					for s2 := -1; s2 < n; s2++ { // -1: single proposal
+						vc := votecounter.New[starknet.Value](vals, types.Height(cur))
+						fail := func(what string, got, want any) {
+							r.Violate("future-height-buffer "+what, map[string]any{"part": "C3", "current_height": cur, "message_height": fh, "round": round,
+								"proposer_of_message_height": prop, "proposer_of_current_height": (cur + round) % n, "senders": []int{s1, s2}, "got": got, "want": want})
+						}
+						mk := func(s, v int) *starknet.Proposal {
+							return &starknet.Proposal{MessageHeader: starknet.MessageHeader{Height: types.Height(fh), Round: types.Round(round), Sender: vals.addrs[s]}, ValidRound: -1, Value: vv[v]}
+						}
+						kept := -1
+						got1 := vc.AddProposal(mk(s1, 0))
+						if want := s1 == prop; got1 != want {
+							fail("proposal-acceptance", got1, want)
+						}
+						if s1 == prop {
+							kept = 0
+						} else {
+							refusedForeign++
+						}
+						if s2 >= 0 {
+							got2 := vc.AddProposal(mk(s2, 1))
+							want := s2 == prop && kept < 0
+							if got2 != want {
+								fail("proposal-acceptance-second", got2, want)
+							}
+							if want {
+								kept = 1
+							}
+						}
+						// three buffered prevotes for A from validators 0..2
+						hA := valA.Hash()
+						for s := 0; s < 3; s++ {
+							vc.AddPrevote(&starknet.Prevote{MessageHeader: starknet.MessageHeader{Height: types.Height(fh), Round: types.Round(round), Sender: vals.addrs[s]}, ID: &hA})
+						}
+						for i := 0; i < d; i++ {
+							vc.StartNewHeight()
+						}
+						p := vc.GetProposal(types.Round(round))
+						switch {
+						case kept < 0 && p != nil:
+							fail("slot-occupied-by-non-proposer", fmt.Sprint(p.Sender), nil)
+						case kept >= 0 && p == nil:
+							fail("legitimate-proposal-lost", nil, kept)
+						case kept >= 0 && (p.Sender != vals.addrs[prop] || *p.Value != *vv[kept]):
+							fail("wrong-proposal-kept", fmt.Sprint(p.Sender), prop)
+						}
+						if !vc.HasQuorumForVote(types.Round(round), votecounter.Prevote, &hA) {
+							fail("buffered-votes-lost", false, true)
+						}
+						if vc.HasQuorumForVote(types.Round(round), votecounter.Precommit, &hA) {
+							fail("buffered-prevotes-counted-as-precommits", true, false)
+						}
+						cases++
+						if kept >= 0 {
+							accepted++
+						}
+					}
+				}
+			}
+		}
+	}
+	r.Set("C3_future_height_buffer_cases", cases)
+	r.Set("C3_cases_with_accepted_proposal", accepted)
+	r.Set("C3_foreign_first_proposals_refused", refusedForeign)
+	r.Add("evaluations", cases*5)
+}
